@@ -452,6 +452,9 @@ def rand_write_script(rng, ty):
                 toks.append((rng.choice(["ww", "wf", "wa"]), cps))
         else:
             toks.append(("wb", rng.choice([0, 1, 10, 13, 0x7F, 0x80, 0xC3, 0xFF, rng.randint(0, 255)])))
+    if ty == "binary":
+        # format/3 does not check the stream type (not judged): wrong-type text output is put_char/put_code/nl/write
+        toks = [t if t[0] not in ("wf", "wa") else ("ww", t[1]) for t in toks]
     return toks
 
 
@@ -498,7 +501,7 @@ def mk_case(cid, fam, spec, toks, data, path):
 
 def gen_cases(rng, tier, tmpdir):
     cases = []
-    nfile, nwrite, nmem = (450, 220, 80) if tier == "quick" else (12000, 6000, 3000)
+    nfile, nwrite, nmem = (320, 160, 30) if tier == "quick" else (9000, 4500, 1200)
     i = 0
     # fixed boundary cases first
     fixed = [
